@@ -120,6 +120,11 @@ def gen_idl_case(rng, kind):
             ops.append("idl feed " + hx(rep))
             deliver_exp("recovered")
             after_recover = True
+            # further repeats of the packet that was just recovered are discarded
+            for r in range(2, rng.choice([2, 2, 3, 4])):
+                rep2 = idl_packet(channel, ft, ial, spa, 0x80 | r, ci, data, dummy)
+                ops.append("idl feed " + hx(rep2))
+                ops.append("idl expect dup-after-recover 1")
         else:
             if fault == "ham1":
                 pkt = list(pkt)
@@ -377,19 +382,18 @@ class C15(verif.Spec):
     lean_modules = ["ZvbiModel.Props.C15"]
     harness = "idlpfc_harness"
     harness_link_lib = True
-    partial_note = ("IDL: full for format A without pending repeats (the RI recovery state machine after a damaged "
-                    "repeating packet is covered by idl_crc_gate, correspondence and the oracle only). "
-                    "PFC: pfc_delivers_blocks is proved for every packetisation whose block pointers are usable "
-                    "(Spec.Admissible); that the executable sender Spec.encode always produces such packets is the open "
-                    "statement pfc_sender_admissible_full (checked on instances by decide and on every run by the "
-                    "sender cross-check and the oracle). Foreign page headers *between* our pages are covered by the "
-                    "single-step theorems pfc_foreign_*; the multi-page theorem has our pages back to back. "
-                    "Findings C15-F17-F20: full statements false on the unchanged tree, witnesses proved (…_counterexample).")
+    partial_note = ("IDL and PFC: full for the modelled behaviour. IDL: idl_delivers_sent_repeats covers every state incl. an "
+                    "awaited repeat; on the unrepaired source it describes the receiver that keeps awaiting the repeat "
+                    "(finding C15-R1, witness proved), idl_delivers_sent_repeats_intended applies once the source resets dx->ri. "
+                    "PFC: pfc_sender_delivers is end to end for the executable sender (pfc_sender_admissible proved). "
+                    "Foreign page headers of our magazine *between* our pages are covered by single-step theorems; headers of "
+                    "other magazines anywhere by pfc_foreign_magazine_header_harmless. Finding F42 (last rows of a page lost): "
+                    "full statement false on the current tree, witness pfc_tail_loss_counterexample.")
     assumptions = ["the callbacks return TRUE (as in the harness)",
                    "packets are 42 bytes; dx->block.pgno is a page number 0x100..0x8FF for the page level theorems",
                    "dupecount (uint8_t) is a Nat: it is incremented at most 36 times per packet",
                    "the allocator's fill byte is the only uninitialised-memory behaviour modelled (dx->flags)"]
-    open_statements = ["Zvbi.Props.C15.pfc_sender_admissible_full"]
+    open_statements = []
     trusted_base = ["translate/gen_idlpfc.py (CRC polynomial, FT/RI/flag masks, separator/filler nibbles, block[] extent, "
                     "four source shape flags); cross-checked: the compiled idl_a_crc_table is compared with the model's "
                     "table and with a Python bit-serial CRC on every run",
@@ -400,7 +404,7 @@ class C15(verif.Spec):
                     "available offline",
                     "lib/idlpfc_util.py: Python senders used by the generator and the oracle, compared with the Lean "
                     "senders on every run (extra_checks)"]
-    FAULT_TAGS_KNOWN = ("taildrop", "shlo2", "hdrlo2", "parallel")
+    FAULT_TAGS_KNOWN = ("taildrop",)
     IDL_KINDS = ["clean", "clean", "loss", "corrupt", "hamming", "repeat", "uninit", "single"]
     PFC_KINDS = ["clean", "clean", "single", "drop", "taildrop", "drophdr", "droppage", "bp2", "pmag2", "shlo2",
                  "shhi2", "hdrlo2", "hdrhi2", "hdrpg2", "sep2", "parallel", "serial"]
@@ -531,15 +535,12 @@ class C15(verif.Spec):
                     tag, want = e[2], "ok " + " ".join(e[3:])
                     if o != want:
                         d = describe(w[0], want, o)
-                        if tag == "after-recover" and d == "DATA_LOST flag set without loss":
-                            # observation O1 (NOTES/C15.md): after a repeat packet repaired a damaged one the next
-                            # delivery is flagged although nothing was lost; the property does not forbid that
-                            self.spurious_lost = getattr(self, "spurious_lost", 0) + 1
-                            continue
                         return "%s: %s: %s" % (w[0], tag, d)
         return None
 
     def signature(self, case, what):
+        if what.startswith("idl: after-recover: DATA_LOST flag set without loss"):
+            return "idl: after-recover: DATA_LOST flag set without loss"
         # component : tag : shape   (no payload bytes, no positions)
         p = what.split(": ")
         if len(p) >= 3 and p[1] in self.FAULT_TAGS_KNOWN:
@@ -580,7 +581,7 @@ class C15(verif.Spec):
                 bad.append(("spec: Lean sender differs from the Python sender the cases are built with", [l]))
                 break
         self.extra_coverage = {"sender_spec_crosschecks": len(lines),
-                               "idl_spurious_data_lost_after_repeat_recovery": getattr(self, "spurious_lost", 0)}
+                               }
         return bad
 
 
@@ -609,17 +610,6 @@ def describe(comp, want, got):
         return "block missing"
     return "return value"
 
-
-def load_known_merged():
-    k = _orig_load_known()
-    p = os.path.join(verif.VERIF, "known_findings.C15.json")
-    if os.path.exists(p):
-        k = dict(k)
-        k["findings"] = list(k.get("findings", [])) + json.load(open(p)).get("findings", [])
-    return k
-
-_orig_load_known = verif.load_known
-verif.load_known = load_known_merged
 
 if __name__ == "__main__":
     verif.run_check(C15())
